@@ -62,7 +62,7 @@ fn any_tail(start: usize, n: usize) -> bool {
     while i < TAIL {
         if i < n {
             let b: u8 = kani::any();
-            g.files[0].bytes[start + i] = b;
+            gfs::bytes(0)[start + i] = b;
             if b != 0 {
                 all_zero = false;
             }
